@@ -39,7 +39,7 @@ from engines.refmodels import delta as refdelta
 SETUP = "props.C15:sb_setup"
 SETUP_ARG = ["B0", "B3", "B5", "BL", "BA"]
 CALL = "props.C15:sb_call"
-FAST = {"wall_s": 20, "cpu_s": 15}
+FAST = {"wall_s": 90, "cpu_s": 5, "max_timeouts": 3}  # the CPU limit decides; the wall clock only catches sleeping hangs
 
 _RELEASE = [False]  # thorough tier runs a second pass against the release build
 
@@ -259,6 +259,10 @@ def compare(acc: Acc, fn, feature, o_rs, o_py, show, replay, tag="rust"):
     """The statement: same return value, or failure in both."""
     acc.count("comparisons")
     acc.count("comparisons:" + fn)
+    if o_rs.kind == "skipped" or o_py.kind == "skipped":  # circuit breaker of the sandbox
+        acc.count("skipped_after_timeouts")
+        acc.outcome("eq:%s:skipped-after-timeouts" % fn)
+        return True
     b_rs, b_py = bad_of(o_rs), bad_of(o_py)
     rel = None
     if isinstance(feature, tuple):  # (name used when a process dies / hangs, name used when values diverge)
@@ -524,7 +528,7 @@ def fam_create_delta(acc, inputs):
     rs, py = pools(_RELEASE[0])
     tag = "rust-release" if _RELEASE[0] else "rust"
     calls = [("create_delta",) + tuple(i) for i in inputs]
-    e_rs, e_py = sandbox.observe_all([(rs, CALL, calls), (py, CALL, calls)], wall_s=240, cpu_s=200)
+    e_rs, e_py = sandbox.observe_all([(rs, CALL, calls), (py, CALL, calls)], wall_s=900, cpu_s=200)
     dec = []
     for i, a, b in zip(inputs, e_rs, e_py):
         for o in (a, b):
@@ -549,6 +553,9 @@ def fam_create_delta(acc, inputs):
                 continue
             for dec_tag, res in ((tag, d_rs), ("python", d_py)):
                 r = res[k]
+                if r.kind == "skipped":
+                    acc.count("skipped_after_timeouts")
+                    continue
                 if r.kind != "ret" or r.value != want:
                     ok = False
                     acc.violation("equiv:create_delta:%s-delta-via-%s-decoder:%s" % (
@@ -950,10 +957,13 @@ def run(ctx):
     if not classes.get("repo_pack:deltas-used"):
         raise HarnessError("vacuous: the pack scenarios never produced a deltified pack")
     ctx.level = "exploration"
+    if n.get("skipped_after_timeouts"):
+        ctx.coverage["cap"] = ("%d comparisons were skipped by the timeout circuit breaker (3 timeouts per batch); the "
+                               "timeouts themselves are reported as violations" % n["skipped_after_timeouts"])
     ctx.coverage.update(
         evaluations=n.get("comparisons", 0),
         distinct_nontrivial=len([c for c in classes if c.startswith("eq:") and not c.endswith(":same-value")]),
-        exhaustive=True,
+        exhaustive=not n.get("skipped_after_timeouts"),
         per_function={k[len("comparisons:"):]: v for k, v in sorted(n.items()) if k.startswith("comparisons:")},
         outcome_classes=dict(sorted(classes.items())),
         rule=(
